@@ -40,7 +40,7 @@ CHECKS = {
              "default arguments x explicit/defaulted suffixes is checked by a bounded run of the real generate_functions "
              "(labelled bounded, not proof) and by a file-level bounded check of the generated C and Fortran files of six "
              "libraries (no wrapper defined twice, no Fortran entity declared twice, compilers accept); they exposed one "
-             "genuine defect (fixed) and two recorded known findings. Also under contract: the numbering step of define_function_suffix (position in the overload set -> suffix). File-level monitor also reads Python method tables and Lua registries. Bounded relations on every upstream regression input (m_corpus_rel) run in both tiers.",
+             "genuine defect (fixed) and two recorded known findings. Also under contract: the numbering step of define_function_suffix (position in the overload set -> suffix). File-level monitor also reads Python method tables and Lua registries. Bounded relations on every upstream regression input (m_corpus_rel) run in both tiers. Frame items on the expansion pass, decided by evaluation over the real AST (C08/E1-E3): the per-declaration lists of the input are read-only (found the fixed defect 61a125e), the overload grouping ignores the wrapper selection, a default-argument variant keeps the generic name.",
         design_ref="6/C08, A.3",
         note="Not covered deductively: define_function_suffix / has_default_args / template and generic expansion (clone "
              "FunctionNodes, mutate Scopes), name templates, dump_generic_interfaces, Python/Lua method tables.",
@@ -192,11 +192,11 @@ CHECKS = {
              "emitted as case label. Mini-C proofs on the helper texts the real module builds (c and c++): ShroudStrAlloc/"
              "Free, ShroudStrArrayAlloc/Free free exactly what they allocate; ShroudCopyStringAndFree and ShroudCopyArray "
              "release the capsule exactly once on every path, write only inside the destination, never pass NULL to "
-             "strncpy/memcpy. Table invariant: temporaries allocated by a row are released by it. Two genuine defects fixed. Table invariant T4: copy-helper call sites pass the destination's own capacity.",
+             "strncpy/memcpy. Table invariant: temporaries allocated by a row are released by it. Two genuine defects fixed. Table invariant T4: copy-helper call sites pass the destination's own capacity. Table invariant T5: single ownership in the Python list conversion helpers (no free after the capsule owns the array) and member setters (a released owner field is re-defined before every return).",
         design_ref="6/C06, A.7, 12",
         note="Trusted: pyvc, mini-C front end, z3/cvc5, wformat contracts, typemap-cache precondition, contract of the "
              "generated memory destructor as seen by the copy helpers. copy_array computes its byte count in int: proved "
-             "under the stated limit n*elem_len <= INT_MAX. Not covered: run-time call sequences, wrapp.py reference counts.",
+             "under the stated limit n*elem_len <= INT_MAX. Not covered: run-time call sequences, wrapp.py reference counts beyond T5.",
         technique="contract-based deductive verification (AST-generated VCs for Python, mini-C symbolic execution for the C helpers, z3+cvc5)",
     ),
     "C17": dict(
